@@ -315,6 +315,9 @@ func history(steps int, maxSlices int) {
 			agree(c, m, "after-"+opTag(op))
 		}
 	}
+	rt.ObserveBytes("content", c.carbonCopy().CompileData())
+	rt.Observe("offset", uint64(c.offset))
+	rt.ObserveBool("model-predicts", ok)
 	rt.Reach("history-end")
 }
 
@@ -381,6 +384,9 @@ func VerifC16_Step() {
 	if ok {
 		agree(c, m, "after-"+opTag(op))
 	}
+	rt.ObserveBytes("content", c.carbonCopy().CompileData())
+	rt.Observe("offset", uint64(c.offset))
+	rt.ObserveBool("model-predicts", ok)
 	rt.Reach("step-end")
 }
 
@@ -396,5 +402,8 @@ func VerifC16_LongPrefix() {
 	if ok {
 		agree(c, m, "after-"+opTag(op))
 	}
+	rt.ObserveBytes("content", c.carbonCopy().CompileData())
+	rt.Observe("offset", uint64(c.offset))
+	rt.ObserveBool("model-predicts", ok)
 	rt.Reach("longprefix-end")
 }
